@@ -50,13 +50,13 @@ QSe(z) == {"o"}
 \* ---- A: gates.  4 variables, 0-2 gates, every fan-in literal 0..7, 0-1 input, one root
 AIn(z) == SeqsUpTo({2}, 0, 1)
 ALa(z) == {<<>>}
-AGa(z) == SeqsUpTo(Gates({2, 4, 5, 6}, 0..7), 0, 2)
-ARo(z) == SeqsUpTo({4, 5, 7}, 1, 1)
+AGa(z) == SeqsUpTo(Gates({4, 5, 6}, 0..7), 0, 2)
+ARo(z) == SeqsUpTo({5, 7}, 1, 1)
 ASe(z) == {"o"}
 \* ---- B: definitions.  0-2 inputs and 0-1 latch over ALL literals 0..5 (every collision of
 \* inputs, latch states, gate outputs and the constant), 0-1 gate, 0-1 root
 BIn(z) == SeqsUpTo(0..5, 0, 2)
-BLa(z) == SeqsUpTo(Latches(0..5, {0, 3, 4}, {1}), 0, 1)
+BLa(z) == SeqsUpTo(Latches(0..5, {3, 4}, {1}), 0, 1)
 BGa(z) == SeqsUpTo(Gates(0..5, 0..5), 0, 1)
 BRo(z) == SeqsUpTo({5}, 0, 1)
 BSe(z) == {"o"}
